@@ -78,6 +78,7 @@ def _json_ok_spec(spec):
 def make_case(i, rng, tier):
     if rng.random() < 0.55:
         for _ in range(20):
+            TS.ENABLE_BARE_CONTAINERS = False  # elements of an untyped container are arbitrary Python objects, not JSON instances
             spec = TS.gen_spec(rng, rng.choice([1, 2, 2, 3]), allow_lax=False, logic=True, dc=lambda r, d: TS.gen_dc(r, max(0, min(d, 1))))
             if rng.random() < 0.2:
                 spec = TS.gen_dc(rng, 1, base="Schema")
